@@ -54,7 +54,8 @@ def run_scenario(ctx, report, name, spec, mode, timeout_ms):
             vios.append({'key': 'parse.panic', 'what': '[%s] Module::parse panics: %r' % (name, pc.pipeline_panic_events(s)[:2]), 'scenario': name, 'spec': spec, 'model': None, 'pc': list(s.pc)})
         for s, e in errs:
             vios.append({'key': 'parse.rejects', 'what': '[%s] Module::parse rejects the description' % name, 'scenario': name, 'spec': spec, 'model': None, 'pc': list(s.pc)})
-        want = [(modcmp.tok(c['name']), modcmp.tok(c['data'])) for c in spec.customs]
+        # (.debug* sections are DWARF, not unknown sections: with the default configuration they are dropped)
+        want = [(modcmp.tok(c['name']), modcmp.tok(c['data'])) for c in spec.customs if not modcmp.tok(c['name']).startswith('str:".debug')]
         n = 0
         for s, module in oks:
             mref = I.halloc(s, module)
@@ -102,7 +103,7 @@ def run_scenario(ctx, report, name, spec, mode, timeout_ms):
 
 def native_customs(emit_index):
     def check(r):
-        inp = [(c['name'], c['data']) for c in r['input']['dump']['custom_sections']]
+        inp = [(c['name'], c['data']) for c in r['input']['dump']['custom_sections'] if not c['name'].startswith('.debug')]
         if emit_index >= len(r['emits']):
             return False, 'no emit %d' % emit_index
         out = [(c['name'], c['data']) for c in r['emits'][emit_index]['dump']['custom_sections'] if c['name'] not in ('producers', 'name')]
@@ -123,6 +124,13 @@ def run(tier, seed, only=None):
             if tier == 'quick' and kind == 'full' and mode != 'emit':
                 continue
             items.append((kind, customs_spec(kind), mode, timeout_ms))
+    # unknown sections interleaved with DWARF sections (which are routed elsewhere): order and content of the unknown ones
+    for mode in ('emit', 'gc+emit', 'emit-twice'):
+        dsp = customs_spec('small')
+        dsp.customs = [dict(name=S('first'), data=Opaque('bytes:c0'), place='end'), dict(name=S('.debug_str'), data=Opaque('bytes:d0'), place='end'),
+                       dict(name=symstr('c2_name'), data=Opaque('bytes:c2'), place='end'), dict(name=S('.debug_line'), data=Opaque('bytes:d1'), place='end'),
+                       dict(name=S('third'), data=Opaque('bytes:c3'), place='end'), dict(name=S('fourth'), data=Opaque('bytes:c4'), place='end')]
+        items.append(('with-debug-sections', dsp, mode, timeout_ms))
     for k, (n, sp) in enumerate(gl):
         items.append((n + '+customs', gen.with_customs(sp, k), ('emit', 'gc+emit', 'emit-twice')[k % 3], timeout_ms))
     items = [i for i in items if not only or i[0] in only]
